@@ -225,8 +225,25 @@ def corpus_cases(seed):
             yield (f"corpus-{os.path.basename(p)[:-4]}-i{j}", with_seed(scn, rng.randrange(1, 1 << 30)))
 
 
+def enum_bases(seed):
+    """small scenarios whose thread schedules are enumerated systematically (vlib/sched.py): the regression corpus (each file encodes a
+    race that once mattered) and the first generated scenarios with at least two threads"""
+    import glob
+    out = []
+    for p in sorted(glob.glob(os.path.join(common.VERIF, "corpus", PROP, "*.scn"))):
+        out.append(("corpus-" + os.path.basename(p)[:-4], with_seed([l.rstrip("\n") for l in open(p) if l.strip() and not l.startswith("#")], 1)))
+    rng = random.Random(seed * 7919 + 808)
+    while len(out) < 9:
+        scn = gen_scenario(rng)
+        if sum(1 for l in scn if l.startswith("thread")) >= 2 and len(scn) <= 24:
+            out.append((f"gen{len(out)}", with_seed(scn, 1)))
+    return out
+
+
 def gen_cases(tier, seed):
     yield from corpus_cases(seed)
+    from . import sched
+    yield from sched.enum_cases(PROP, HARNESS, enum_bases(seed), tier, os.path.join(common.BUILD, "sched-c08"))
     rng = random.Random(seed * 7919 + 8)
     nscn, nseeds = (600, 4) if tier == "quick" else (6000, 8)
     for i in range(nscn):
